@@ -16,6 +16,10 @@ func wire(proto string, k int, tag byte) []byte {
 	switch proto {
 	case "rep", "xrep", "respondent", "xrespondent":
 		for i := 0; i < k-1; i++ {
+			if verif.Param("big", 0) == 1 {
+				b = append(b, 0, 0, byte(i>>8), byte(i)) // long routes: concrete routing words, the count is what matters
+				continue
+			}
 			w := verif.Bytes("hop", 4)
 			verif.Assume(w[0]&0x80 == 0)
 			b = append(b, w...)
@@ -43,6 +47,13 @@ func VH09a_ttl() {
 		verif.Assert(dv.(int) == 8, "C09/ttl/"+proto+"/default-8")
 	}
 	t := verif.Int("ttl")
+	if verif.Param("big", 0) == 1 {
+		// the upper end of the range: concrete limits 254 and 255 against routes of 253..257 connections
+		if proto == "xpair1" || proto == "pair1" || proto == "xstar" || proto == "star" {
+			verif.Assume(false) // their hop word is fully symbolic in the main harness
+		}
+		t = 254 + verif.Choice("ttl-top", 2)
+	}
 	err := sock.SetOption(mangos.OptionTTL, t)
 	verif.Assert(verif.Iff(err == nil, verif.And(t >= 1, t <= 255)), "C09/ttl/"+proto+"/accepted-range-1..255")
 	if err != nil {
@@ -51,7 +62,15 @@ func VH09a_ttl() {
 	}
 	side := vt.Listen(sock, "a")
 	peer := side.Peer("p1")
+	hopWord := proto == "xpair1" || proto == "pair1" || proto == "xstar" || proto == "star"
+	if hopWord {
+		hopcount(proto, sock, peer, t)
+		return
+	}
 	k := 1 + verif.Choice("k", K) // connections crossed: 1..K
+	if verif.Param("big", 0) == 1 {
+		k += 252 // 253..252+K: around the largest TTL
+	}
 	peer.Deliver(wire(proto, k, 'T'))
 	peer.Deliver(wire(proto, 1, 'S')) // in-limit sentinel
 	var got *mangos.Message
@@ -83,6 +102,57 @@ func VH09a_ttl() {
 		verif.Reach("dropped")
 		verif.Assert(got.Body[n-1] == 'S', "C09/ttl/"+proto+"/sentinel-disturbed")
 		verif.Assert(k > limit, "C09/ttl/"+proto+"/dropped-within-limit")
+	}
+	sock.Close()
+}
+
+// hopcount: PAIR1 and STAR keep the number of hops so far in a 32-bit header
+// word, so the whole word is a solver variable: every hop count 0..2^32-1
+// against every TTL 1..255 in one query (no enumeration of k). Delivered iff
+// the word is at most TTL (PAIR1: one forwarder more than STAR, i.e. word <=
+// ttl; STAR: word < ttl) and small enough to be incremented in its byte (a
+// count of 255 is dropped whatever the TTL, otherwise the counter would wrap
+// to 0 and a forwarding loop would never die out); the hop count handed on
+// (raw mode) is the received one plus one.
+func hopcount(proto string, sock mangos.Socket, peer *vt.Pipe, t int) {
+	lab := "C09/ttl/" + proto
+	w := verif.Bytes("hopword", 4)
+	peer.Deliver([]byte{w[0], w[1], w[2], w[3], 'P', 'T'})
+	peer.Deliver([]byte{0, 0, 0, 0, 'P', 'S'}) // in-limit sentinel
+	var got *mangos.Message
+	var rerr error
+	g := verif.Go("recv", func() { got, rerr = sock.RecvMsg() })
+	verif.Quiesce()
+	verif.Assert(g.Done(), lab+"/recv-returns")
+	if !g.Done() {
+		return
+	}
+	verif.Assert(rerr == nil, lab+"/recv-ok")
+	if rerr != nil {
+		return
+	}
+	n := len(got.Body)
+	verif.Assert(n >= 2, lab+"/payload-present")
+	if n < 2 {
+		return
+	}
+	hops := int(w[0])<<24 | int(w[1])<<16 | int(w[2])<<8 | int(w[3])
+	var within bool
+	if proto == "xpair1" || proto == "pair1" {
+		within = verif.And(hops <= t, hops < 255)
+	} else {
+		within = hops < t
+	}
+	if got.Body[n-1] == 'T' {
+		verif.Reach("delivered")
+		verif.Assert(within, lab+"/delivered-beyond-limit")
+		if proto == "xpair1" || proto == "xstar" {
+			verif.Assert(len(got.Header) == 4 && got.Header[0] == 0 && got.Header[1] == 0 && got.Header[2] == 0 && int(got.Header[3]) == hops+1, lab+"/hop-count-not-incremented-by-one")
+		}
+	} else {
+		verif.Reach("dropped")
+		verif.Assert(got.Body[n-1] == 'S', lab+"/sentinel-disturbed")
+		verif.Assert(!within, lab+"/dropped-within-limit")
 	}
 	sock.Close()
 }
